@@ -4,7 +4,8 @@ nothing from the verification machinery) that is to produce seeded changes Cxx-N
 of /repo is /tmp/seedwt2-Cxx, the output directory /tmp/seedout/Cxx-N, /tmp/seedout/Cxx-M."""
 import json, os, sys
 HERE = os.path.dirname(os.path.abspath(__file__))
-pid, ns = sys.argv[1], sys.argv[2:]
+pid, ns = sys.argv[1], [a for a in sys.argv[2:] if not a.startswith("--")]
+focus = "glue" if "--glue" in sys.argv else ""
 prop = [json.loads(l) for l in open(os.path.join(HERE, "properties.jsonl")) if json.loads(l)["id"] == pid][0]
 prev = []
 for d in sorted(os.listdir(os.path.join(HERE, "seeded"))):
@@ -22,6 +23,7 @@ The property (this is all you get — read the code it is anchored in):
 Task: produce {len(ns)} *different* changes to the library source (each a small realistic edit a developer could plausibly make — a refactor, an "optimisation", a tidy-up, a misguided bug fix; different mechanisms / code sites from each other) such that with the change
   (1) the library still imports and the existing test suite still passes — at the very least every test file that touches the changed code (`cd {wt} && PYTHONPATH={wt} /venv/bin/python -m pytest -q -p no:cacheprovider --timeout=900 xrspatial/tests/test_<x>.py`; the full suite `xrspatial/tests` takes ~5 min; `test_viewshed.py::test_viewshed` and `test_classify.py::test_equal_interval_dask_numpy` may fail on the unchanged tree too and do not count), and
   (2) the property above is broken — but only in circumstances that need something *specific* to manifest: an unusual input (dtype, memory layout, size class, parameter range, NaN placement, non-square cells, descending coordinates …), a particular chunking or scheduler, a multi-step sequence of calls, a particular interleaving, or two cooperating code sites that each look fine alone. NOT a change that ordinary use or a casual glance at any output would expose at once.
+{("This round, aim at the GLUE rather than the numeric kernels: public wrappers and their argument handling (defaults, None/0/empty handling, name/attrs/coords propagation, dims other than ('y','x'), xdim/ydim arguments, DataArray vs Dataset inputs), backend dispatch (ArrayTypeFunctionMapping, isinstance chains), utils helpers (cell size / resolution from attrs or coordinates, validate_arrays, rechunking, canvas helpers), conversion of parameters (units, lists vs tuples vs arrays, dtype of parameter arrays), the order and guards of validation, result assembly (DataFrame/DataArray/Dataset construction, stacking, naming)." if focus else "")}
 Changes already used in an earlier round (do something different in mechanism and site):
 {chr(10).join(prev) if prev else '  (none)'}
 
